@@ -8,6 +8,7 @@ def run(F, G, tier, seed):
     chk = Check("C08", tier, "other", seed)
     CG = CallGraph(F)
     ownership.run_selfreg(chk, F)
+    ownership.run_uidsrc(chk, F)
     ownership.run_stable(chk, F)
     ownership.run_edge(chk, F)
     ownership.run_endpoint_null(chk, F)
